@@ -432,8 +432,10 @@ def mk_algo(bt, d, tickers, dates, data, perturb=None):
         r = _random.Random(d[1])
         idx = pd.DatetimeIndex(dates)
         sig = pd.DataFrame({t: [r.random() < 0.6 for _ in idx] for t in tickers}, index=idx)
-        if len(d) > 2 and d[2]:
+        if len(d) > 2 and d[2] and not (isinstance(d[2], dict) and d[2].get("stamps") == "midnight"):
             # a signal published at the close: some of its rows are stamped later on the day than the (midnight) price row
+            # (not for a SelectWhere that stands alone in a program offered as well-formed: with no row at `now` it selects nothing
+            # and the weigher that follows has nothing to read - an ill-formed stack, not a defect of the library)
             idx = pd.DatetimeIndex([ts + pd.Timedelta(hours=16) if r.random() < 0.5 else ts for ts in idx])
             sig.index = idx
         if perturb:
